@@ -33,7 +33,7 @@ package service
 @*/
 
 /*@ func types/service.PodsFilter
-  props C19 C17
+  props C19 C17 C09
   theory servicefilters
   requires [services-valid] (forall ((j Int)) (=> (and (<= 0 j) (< j (slen {services})))
         (and (not (= (select (sarr {services}) j) vnil)) (not (= (obj-ns (select (sarr {services}) j)) |str!|)))))
